@@ -31,20 +31,26 @@ func c16Check(challenge, password string, digest [16]byte, resp string) {
 
 // C16 K1
 func H_c16_response() {
+	L := symParam("L", 2)
+	ch := symString(symInt(0, L))
+	pw := symString(symInt(0, L))
 	if !symEngine() {
-		// native confirmation by search: real MD5, many inputs
+		// native confirmation: real MD5 on the vector's challenge/password ...
+		resp := secureLoginResponse(ch, pw)
+		payload := append(append([]byte(ch), pw...), refSalt[:]...)
+		want := refSecureResponse(md5.Sum(payload))
+		symAssert(resp == want, "md5-over-challenge-password-salt")
+		// ... and a search over many real digests for the arithmetic assertions
+		// (a digest cannot be forced natively)
 		for i := 0; i < 1<<18; i++ {
-			ch, pw := refItoa(i), "pw"+refItoa(i%7)
-			resp := secureLoginResponse(ch, pw)
-			payload := append(append([]byte(ch), pw...), refSalt[:]...)
-			c16Check(ch, pw, md5.Sum(payload), resp)
+			c, p := refItoa(i), "pw"+refItoa(i%7)
+			r := secureLoginResponse(c, p)
+			pl := append(append([]byte(c), p...), refSalt[:]...)
+			c16Check(c, p, md5.Sum(pl), r)
 		}
 		symReach("end")
 		return
 	}
-	L := symParam("L", 2)
-	ch := symString(symInt(0, L))
-	pw := symString(symInt(0, L))
 	resp := secureLoginResponse(ch, pw)
 	want := append(append([]byte(ch), pw...), refSalt[:]...)
 	symAssert(string(c16LastMD5Arg) == string(want), "md5-over-challenge-password-salt")
